@@ -230,6 +230,10 @@ def encode(v):
 
 def main(argv):
     sys.path.insert(0, os.path.dirname(os.path.dirname(os.path.abspath(__file__))))
+    if REPO != '/repo':
+        # checks run against a scratch copy of the repository: its sources win over the
+        # editable install of /repo
+        sys.path.insert(0, os.path.join(REPO, 'src'))
     if argv[0] == 'replay':
         return cmd_replay(argv[1])
     if argv[0] == 'bounded':
